@@ -224,11 +224,43 @@ def StageReference(dataReference,  # type: experiment.model.graph.DataReference
                 #Check the contents will all be extract under location
                 #Add / to dest to avoid commonprefix issue where /usr/var matches /usr/var2
                 #(due to charactwise matching performed)
-                target = os.path.join(os.path.realpath(dest), '')
-                for f in tar.getmembers():
-                    newPath = os.path.join(location.path, f.name)
-                    #if target includes / then commonprefix will include it
-                    if os.path.commonprefix([target, newPath]) != target:
+                realDest = os.path.realpath(dest)
+                target = os.path.join(realDest, '')
+
+                def isInside(path, directory=target):
+                    #True if path is the directory or something below it. Both are normalised and the
+                    #directory ends with / so that the characterwise comparison is a comparison of whole names
+                    return os.path.join(path, '').startswith(directory)
+
+                def hasParentSegment(name):
+                    return os.pardir in name.split(os.sep)
+
+                members = tar.getmembers()
+                #Where each member is created: the names are normalised BEFORE they are compared with the
+                #destination (a/../../b is outside even though it begins with the characters of the destination)
+                newPaths = [os.path.normpath(os.path.join(realDest, f.name)) for f in members]
+                linkPaths = [(i, newPaths[i]) for i, f in enumerate(members) if f.issym()]
+
+                for i, f in enumerate(members):
+                    newPath = newPaths[i]
+                    outside = hasParentSegment(f.name) or not isInside(newPath)
+                    #Something already in the destination (e.g. a link reference staged earlier) may redirect newPath
+                    outside = outside or not isInside(os.path.realpath(newPath))
+                    #Nothing may be extracted through, or on top of, a symbolic link that the archive itself creates
+                    outside = outside or any(j != i and isInside(newPath, os.path.join(linkPath, ''))
+                                             for (j, linkPath) in linkPaths)
+                    if f.issym():
+                        #Symbolic link targets are relative to the directory containing the link
+                        linkTarget = os.path.normpath(os.path.join(os.path.dirname(newPath), f.linkname))
+                        outside = outside or not isInside(linkTarget)
+                    elif f.islnk():
+                        #Hard link targets are names of other members of the archive
+                        linkTarget = os.path.normpath(os.path.join(realDest, f.linkname))
+                        outside = outside or hasParentSegment(f.linkname) or not isInside(linkTarget)
+                        outside = outside or not isInside(os.path.realpath(linkTarget))
+                        outside = outside or any(isInside(linkTarget, os.path.join(linkPath, ''))
+                                                 for (j, linkPath) in linkPaths)
+                    if outside:
                         raise tarfile.ReadError('Archive contains files that would be extracted outside of destination')
 
                 tar.extractall(dest)
